@@ -254,7 +254,10 @@ def main(run):
 
         # Gonze-Lee: the model is compared on a reduced reciprocal sum (about 40 G points; exact rational
         # sums over 300 different denominators are too slow), the limits are checked on the default one too
-        g_small = (3 * rng.choice([30, 40, 50]) / (4 * np.pi) / prim.volume) ** (1.0 / 3)
+        n_g = rng.choice([30, 40, 50]) if npa <= 2 else (20 if npa <= 4 else 14)
+        if thorough:
+            n_g *= 2
+        g_small = (3 * n_g / (4 * np.pi) / prim.volume) ** (1.0 / 3)
         for method, extra, corr in (("wang", {}, True), ("gonze", {"G_cutoff": g_small}, True), ("gonze", {}, False)):
             info = dict(info0, method=method, **extra)
             ph.nac_params = dict({"born": born_s.copy(), "dielectric": eps_s.copy(), "factor": factor, "method": method}, **extra)
@@ -281,7 +284,7 @@ def main(run):
                 # the API only forwards the direction at the zone centre in the serial build; the kernel ignores it elsewhere
                 dr_eff = dr if np.abs(qv).max() < 1e-5 else None
                 nacl, qc, dcart = _nac_in(rec, qv, dr_eff, E, Z)
-                if not corr:
+                if not corr or (method == "gonze" and tag in ("gamma", "generic+dir") and not thorough):
                     continue
                 if method == "wang":
                     lines.append("wang %s %s %s" % (_dyn_in(dm, np.array(dm.force_constants), qv), q(f), nacl))
@@ -327,7 +330,8 @@ def main(run):
                                   dict(info, q=q_comm.tolist()))
             if "commensurate-bz" in results:
                 # in the first zone what was subtracted is added back: 1e-6 of the dipole-dipole scale
-                if not U.close(results["commensurate-bz"], plain["comm_bz"], 1e-6, sc_dd):
+                # (1e-4 for the artificially reduced sum used for the correspondence)
+                if not U.close(results["commensurate-bz"], plain["comm_bz"], 1e-6 if not extra else 1e-4, sc_dd):
                     run.violation("Phonopy.run_qpoints", "commensurate-noop-gonze",
                                   "correction changes D at a non-zero commensurate q of the first zone by %.3g (scale %.3g)" % (U.maxdiff(results["commensurate-bz"], plain["comm_bz"]), sc_dd),
                                   dict(info, q=q_comm_bz.tolist()))
